@@ -172,6 +172,7 @@ type iterState struct {
 	complete       bool            // last sequence ran to completion
 	lastSnap       string          // dump of the snapshot passed to the last refreshing Next
 	registered     bool            // the creating transaction has committed
+	void           bool            // the creating transaction aborted: never registered, awaits nothing
 	caughtUpSeq    int             // commitSeq at which a Next on a fresh snapshot last ran to completion (-1: never)
 	liveAtCreation map[string]bool // primary keys live (in the creating transaction's view) when Changes() was called
 }
@@ -196,6 +197,7 @@ type eng struct {
 	db       *statedb.DB
 	tabs     []statedb.RWTable[*Obj]
 	wtxn     statedb.WriteTxn
+	atBegin  string             // leftovers() when the open transaction began
 	finished []statedb.WriteTxn // handles of finished transactions (the last few)
 	locked   map[int]bool
 	snaps    map[int]*snapRec
@@ -444,6 +446,19 @@ func (e *eng) query(kind string, key []byte) statedb.Query[*Obj] {
 	panic("bad index kind " + kind)
 }
 
+// leftovers: per table, the number of registered delete trackers and of retained deletions, the initialization
+// state and the revision in the committed state
+func (e *eng) leftovers() string {
+	rtxn := e.db.ReadTxn()
+	var parts []string
+	for _, t := range e.tabs {
+		ini, _ := t.Initialized(rtxn)
+		parts = append(parts, fmt.Sprintf("%d/%d/%v%v/r%d", statedb.VerifDeleteTrackerCount(rtxn, t), statedb.VerifGraveyardLen(rtxn, t),
+			ini, t.PendingInitializers(rtxn), t.Revision(rtxn)))
+	}
+	return strings.Join(parts, ",")
+}
+
 // dump: everything a snapshot can be asked, through every index (C01 oracle)
 func (e *eng) dump(txn statedb.ReadTxn) string {
 	var sb strings.Builder
@@ -569,7 +584,7 @@ func (e *eng) afterCommit() {
 				w := map[int]bool{}
 				for iid, is := range e.iters {
 					// registered before this transaction, or created in it while the object was still live
-					if is.tab == tab && (is.registered || is.liveAtCreation[pk]) {
+					if is.tab == tab && !is.void && (is.registered || is.liveAtCreation[pk]) {
 						w[iid] = true
 					}
 				}
@@ -589,7 +604,9 @@ func (e *eng) afterCommit() {
 		e.lastLive[tab] = now
 	}
 	for _, is := range e.iters {
-		is.registered = true // iterators created in the transaction that just committed are registered now
+		if !is.void {
+			is.registered = true // iterators created in the transaction that just committed are registered now
+		}
 	}
 }
 
@@ -612,7 +629,7 @@ func (e *eng) c08Oracle() string {
 		// nothing may be retained
 		allCaughtUp := true
 		for _, is := range e.iters {
-			if is.tab == tab && is.caughtUpSeq != e.commitSeq {
+			if is.tab == tab && !is.void && is.caughtUpSeq != e.commitSeq {
 				allCaughtUp = false
 			}
 		}
@@ -741,6 +758,7 @@ func (e *eng) Op(f []string, line string, out *hx.Out) {
 			}
 		}
 		e.wtxn = e.db.WriteTxn(metas...)
+		e.atBegin = e.leftovers()
 		e.ref.begin(e.locked)
 		emit("M:*", "ok")
 	case "insert", "insertw", "modify", "cas":
@@ -870,9 +888,19 @@ func (e *eng) Op(f []string, line string, out *hx.Out) {
 		e.wtxn.Abort()
 		e.finished = append(e.finished, e.wtxn)
 		e.wtxn = nil
+		for _, is := range e.iters {
+			if !is.registered {
+				is.void = true
+			}
+		}
 		e.ref.abort()
 		if d := e.dump(e.db.ReadTxn()); d != before {
 			bad = " !BAD:C02:abort-changed-committed-state"
+		}
+		// nothing else can have committed since this transaction began (single goroutine, the collector is gated):
+		// the registered change iterators and the retained deletions of the committed state are those of its begin
+		if l := e.leftovers(); l != e.atBegin {
+			bad = " !BAD:C02:aborted-transaction-left-a-trace(" + e.atBegin + "->" + l + ")"
 		}
 		e.pendingIW = nil
 		if b := e.watchOracle("abort"); b != "" {
